@@ -31,6 +31,7 @@ import (
 	"github.com/snapcore/snapd/interfaces"
 	"github.com/snapcore/snapd/interfaces/ifacetest"
 	"github.com/snapcore/snapd/overlord/hookstate"
+	"github.com/snapcore/snapd/overlord/hookstate/ctlcmd"
 	"github.com/snapcore/snapd/overlord/ifacestate"
 	"github.com/snapcore/snapd/overlord/snapstate"
 	"github.com/snapcore/snapd/overlord/snapstate/snapstatetest"
@@ -58,6 +59,8 @@ type verifC22Suite struct {
 	trigHooks   int
 	trigSetups  int
 	trigFired   bool
+	snapctlErrs int
+	snapctlSets int
 }
 
 var _ = Suite(&verifC22Suite{})
@@ -233,13 +236,28 @@ func (s *verifC22Suite) setupCallback(appSet *interfaces.SnapAppSet, opts interf
 func (s *verifC22Suite) hookInvoke(ctx *hookstate.Context, _ *tomb.Tomb) ([]byte, error) {
 	name := ctx.HookName()
 	s.mu.Lock()
-	defer s.mu.Unlock()
 	s.hookCount++
 	s.hookLog = append(s.hookLog, ctx.InstanceName()+":"+name)
 	if s.failHookAt > 0 && s.hookCount == s.failHookAt {
 		s.fired = true
 		s.firedDesc = name
+		s.mu.Unlock()
 		return []byte("verif: injected hook failure"), errors.New("exit status 1")
+	}
+	s.mu.Unlock()
+	// prepare hooks set a dynamic attribute the way a real hook does (snapctl
+	// set :<plug|slot> k=v) so that persisted connections carry dynamic attributes
+	for _, pfx := range []string{"prepare-plug-", "prepare-slot-"} {
+		if strings.HasPrefix(name, pfx) {
+			_, _, err := ctlcmd.Run(ctx, []string{"set", ":" + strings.TrimPrefix(name, pfx), "verif-dyn=" + ctx.InstanceName()}, 0)
+			s.mu.Lock()
+			if err != nil {
+				s.snapctlErrs++
+			} else {
+				s.snapctlSets++
+			}
+			s.mu.Unlock()
+		}
 	}
 	return nil, nil
 }
@@ -873,12 +891,18 @@ func (s *verifC22Suite) TestVerifC22(c *C) {
 	chk.Assume("link/unlink/discard of snaps are mocked, reversible tasks (snapstate itself is out of scope); hooks execute through the real hookstate task handler with only the process execution replaced")
 	chk.Assume("a restart is a new InterfaceManager over the same state object followed by StartUp; the state is not re-read from disk")
 	chk.Assume("install/remove changes are only judged by oracle (2); whether they restore the pre-state is counted, not decided")
-	chk.Floor("faulted_changes_error", 40)
-	chk.Floor("cross_checks_persisted_vs_memory", 100)
-	chk.Floor("restarts_simulated", 5)
-	chk.Floor("clause1_transactional_checks", 20)
+	if kit.OnlyCase() < 0 {
+		chk.Floor("faulted_changes_error", 40)
+		chk.Floor("cross_checks_persisted_vs_memory", 100)
+		chk.Floor("restarts_simulated", 5)
+		chk.Floor("clause1_transactional_checks", 20)
+		chk.Floor("fault_positions_task", 40)
+		chk.Floor("fault_positions_injected_task", 10)
+		chk.Floor("fault_positions_hook", 10)
+		chk.Floor("fault_positions_backend_setup", 20)
+	}
 
-	nHist := kit.Scale(14, 40)
+	nHist := kit.Scale(12, 24)
 	only := kit.OnlyCase()
 	ran := false
 	for hi := 0; hi < nHist; hi++ {
@@ -1149,6 +1173,11 @@ func (s *verifC22Suite) attempt(c *C, hi, oi int, op v22Op, f v22Fault, wit func
 	s.secBackend.RemoveCalls = nil
 	chk.Count("backend_setup_calls_seen", len(setupLog))
 	chk.Count("hook_invocations_seen", len(hookLog))
+	s.mu.Lock()
+	chk.Count("snapctl_set_dynamic_attr_ok", s.snapctlSets)
+	chk.Count("snapctl_set_dynamic_attr_errors", s.snapctlErrs)
+	s.snapctlSets, s.snapctlErrs = 0, 0
+	s.mu.Unlock()
 	if o.settleErr != nil {
 		chk.Inconclusive(fmt.Sprintf("history %d op %d %v fault %v: %v", hi, oi, op, f, o.settleErr))
 		return o
